@@ -261,6 +261,68 @@ def candidates(base: tuple, v11: bool) -> list[tuple[str, tuple]]:
     return res
 
 
+def kind_change_candidates(base: tuple, v11: bool) -> list[tuple[str, tuple]]:
+    """restrictions whose group differs from the base group in MODEL KIND (sequence / choice / all), combined with
+    keeping one item only, dropping the first / last / a middle item, and wrapping the kept item in a single-branch
+    group; for every group node of the base (all only at the root and over elements)"""
+    out: list[tuple[str, tuple]] = [('same', base)]
+    for p in paths(base):
+        node = get(base, p)
+        if node[0] != 'g':
+            continue
+        kind, items = node[1], list(node[4])
+        subsets: list[tuple[str, list]] = [('all-items', items)]
+        for i, it in enumerate(items):
+            subsets.append((f'keep-one[{i}]', [it]))
+        if len(items) >= 2:
+            subsets.append(('drop-first', items[1:]))
+            subsets.append(('drop-last', items[:-1]))
+        if len(items) >= 3:
+            subsets.append(('drop-middle', items[:1] + items[2:]))
+        for k2 in ('sequence', 'choice') + (('all',) if not p else ()):
+            for tag, sub in subsets:
+                if k2 == kind and tag == 'all-items':
+                    continue
+                if k2 == 'all' and not all(x[0] == 'e' and (v11 or (x[3] is not None and x[3] <= 1)) for x in sub):
+                    continue
+                out.append((f'kind-{kind}-to-{k2}+{tag}', put(base, p, ('g', k2, node[2], node[3], sub))))
+                if len(sub) == 1 and k2 != 'all':
+                    for k3 in ('sequence', 'choice'):
+                        out.append((f'kind-{kind}-to-{k2}+{tag}+wrap-{k3}',
+                                    put(base, p, ('g', k2, node[2], node[3], [('g', k3, 1, 1, sub)]))))
+                    if (node[2], node[3]) != (1, 1):
+                        out.append((f'kind-{kind}-to-{k2}+{tag}+occ11', put(base, p, ('g', k2, 1, 1, sub))))
+    seen, res = set(), []
+    for tag, d in out:
+        if repr(d) not in seen and d[0] == 'g':
+            seen.add(repr(d))
+            res.append((tag, d))
+    return res
+
+
+def kind_change_base(rng, v11: bool) -> tuple:
+    """small groups of every kind with required and optional items, some nested, some with a single item"""
+    names = ['a', 'b', 'c', 'h', 'o']
+    occ = [(1, 1), (1, 1), (0, 1), (1, 2), (0, None), (1, None), (2, 2)]
+
+    def leaf() -> tuple:
+        if rng.random() < 0.1:
+            return ('a', rng.choice(WILD_NS)) + rng.choice(occ)
+        return ('e', rng.choice(names)) + rng.choice(occ)
+    kind = rng.choice(['sequence', 'sequence', 'choice', 'choice', 'all'])
+    if kind == 'all':
+        aocc = [(1, 1), (0, 1)] + ([(1, 2), (0, None)] if v11 else [])
+        return ('g', 'all') + rng.choice([(1, 1), (0, 1)]) + ([('e', n) + rng.choice(aocc) for n in rng.sample(names, rng.randint(1, 3))],)
+    items = []
+    for n in rng.sample(names, rng.randint(1, 3)):
+        if rng.random() < 0.2:
+            k = rng.choice(['sequence', 'choice'])
+            items.append(('g', k) + rng.choice([(1, 1), (0, 1), (1, 2)]) + ([('e', n) + rng.choice(occ), leaf()][:rng.randint(1, 2)],))
+        else:
+            items.append(('e', n) + rng.choice(occ))
+    return ('g', kind) + rng.choice([(1, 1), (1, 1), (0, 1), (1, 2), (1, None)]) + (items,)
+
+
 OCCS = [(1, 1)] * 4 + [(0, 1)] * 3 + [(0, None), (1, None), (2, 2), (1, 2), (0, 2), (2, 3), (2, None), (0, 0), (1, 3)]
 
 
